@@ -2,15 +2,15 @@
 """Regenerates /verif/MANIFEST.json from the table below (kept valid at all times)."""
 import json, subprocess
 
-CLAIMED = {
- # id: (category, text, note, technique, design_ref)
- "C14": ("model_checking",
-         "Every schedule of the real servers (instrumented mechanically, run under a cooperative scheduler that owns every channel/lock/WaitGroup operation) on pipelined 'open; write*k; read*j; close' sessions is enumerated up to a stated number of deviations from the default schedule: db(2) at the real W=8 and db(3) at W=2 in the quick tier, one level deeper in the thorough tier. Oracle: all pipelined reads/writes succeed, final content equals the reference, the handler object's Close is entered with no read/write in flight and none is entered afterwards.",
-         "Deviation bound and worker-count bound as stated in the evidence; handler calls atomic between their enter/exit points; Go memory-model effects are outside the scheduler (race pass).",
-         "stateless model checking of the implementation: exhaustive deviation-bounded schedule enumeration (controlled scheduler + DFS)", "DESIGN.md §3 C14"),
-}
+import glob, os
+HERE = os.path.dirname(os.path.abspath(__file__))
+# one file per claimed property: manifest.d/Cxx.json = {"category","text","note","technique","design_ref"}
+CLAIMED = {}
+for f in sorted(glob.glob(os.path.join(HERE, 'manifest.d', 'C*.json'))):
+    d = json.load(open(f))
+    CLAIMED[os.path.basename(f)[:-5]] = (d["category"], d["text"], d["note"], d["technique"], d["design_ref"])
 NOT_YET = "check not built yet (work in progress in this session); see DESIGN.md §3 for the planned exhaustive check"
-props = [json.loads(l) for l in open('/verif/properties.jsonl')]
+props = [json.loads(l) for l in open(os.path.join(HERE,'properties.jsonl'))]
 checks, na = [], []
 for p in props:
     i = p["id"]
@@ -49,5 +49,5 @@ m = {
  "not_applicable": na,
  "notes": "All checks rebuild from /repo's working tree at run time. Exit 2 = engine error (never a verdict).",
 }
-json.dump(m, open('/verif/MANIFEST.json','w'), indent=1)
+json.dump(m, open(os.path.join(HERE,'MANIFEST.json'),'w'), indent=1)
 print("claimed:", sorted(CLAIMED), "not claimed:", len(na))
